@@ -90,8 +90,8 @@ def gen_case(r):
         if x < 0.12 and pending[recv] == 0:
             # the streaming idiom: fill the TX FIFO with CE low, then start transmitting
             ops += [("select", sender), ("ce_pin=", False)]
-            for _ in range(r.choice([1, 2, 3, 4, 4, 5])):
-                n = r.randrange(1, 33) if dyn else r.choice([1, L, 32, 33, r.randrange(1, 41)])
+            for _ in range(r.choice([1, 2, 3, 4, 4, 5, 6])):
+                n = r.choice([r.randrange(1, 33)] * 5 + [0, 33, 40]) if dyn else r.choice([1, L, 32, 33, r.randrange(1, 41)])
                 pl = bytes(r.randrange(256) for _ in range(n))
                 ops.append(("write", bytearray(pl) if r.random() < 0.5 else pl, noack, True))
             ops += [("ce_pin=", True), ("update",), ("ce_pin=", False)]
@@ -189,6 +189,15 @@ class Checker:
             exp = self.expect[peer]
             if bytes(R.LAST_ARGS[0]) != bytes(op[1]) or type(R.LAST_ARGS[0]) is not type(op[1]):
                 return ("C01/caller-buffer-modified", "%s of %d bytes after write()" % (type(op[1]).__name__, len(op[1])))
+            if m["dyn"] and (len(op[1]) == 0 or len(op[1]) > 32):
+                # rejected before anything reaches the radio -- whatever state the TX FIFO is in
+                if res[0] != 1:
+                    return ("C01/oversize-or-empty-payload-not-rejected", "write() of %d bytes -> %s" % (len(op[1]), res))
+                mine = [mo for (i, mo, ce) in log.items if i == cur]
+                if mine:
+                    return ("C01/rejected-payload-reached-the-radio", "write() of %d bytes: SPI traffic %s" % (
+                        len(op[1]), [bytes(x).hex() for x in mine]))
+                return None
             if res[0] != 0:
                 return ("C01/write-raised", "result %s for a %d-byte payload" % (res, len(op[1])))
             if res[1]:          # accepted: it has to come out of the peer's read(), once, in order
